@@ -77,7 +77,7 @@ def init_config(**kwargs: Any) -> None:
         logger.info("Initializing configuration file %s", kwargs["output"])
         config = GeneratorConfig.create()
 
-    with file_path.open("w") as fp:
+    with file_path.open("w", encoding="utf-8") as fp:
         config.write(fp, config)
 
     handler.emit_warnings()
